@@ -260,11 +260,10 @@ func loadContracts(dir, pkgPath string) (*PkgContracts, error) {
 					break
 				}
 			}
-			if k < 0 {
-				return nil, fmt.Errorf("%s:%d: spec func needs '= expr'", path, line)
+			if k >= 0 {
+				body = strings.TrimSpace(header[k+1:])
+				header = strings.TrimSpace(header[:k])
 			}
-			body = strings.TrimSpace(header[k+1:])
-			header = strings.TrimSpace(header[:k])
 		}
 		if !headerRe.MatchString(header) {
 			header = "func " + header
@@ -425,6 +424,9 @@ func __old[T any](x T) T            { return x }
 func __in[K comparable, V any](m map[K]V, k K) bool { _, ok := m[k]; return ok }
 func __fresh[T any](x T) bool       { return true }
 func __is(err error, target error) bool { return true }
+func __ri(n int) int                    { return 0 }
+func __eq[T any](a, b T) bool           { return true }
+func __seen[K comparable](k K) bool     { return true }
 
 `)
 	emit := func(name, tparams string, params []Param, ret string, c *Clause) error {
@@ -456,6 +458,15 @@ func __is(err error, target error) bool { return true }
 			ret := "bool"
 			if len(fs.Results) == 1 {
 				ret = fs.Results[0].Type
+			}
+			if fs.Body == "" {
+				// uninterpreted specification function
+				var ps []string
+				for _, p := range fs.Params {
+					ps = append(ps, p.Name+" "+p.Type)
+				}
+				fmt.Fprintf(&b, "func %s(%s) %s { panic(\"uninterpreted\") }\n", fs.Name, strings.Join(ps, ", "), ret)
+				continue
 			}
 			c := &Clause{Text: fs.Body, Line: fs.Line}
 			if err := emit(fs.Name, fs.TParams, fs.Params, ret, c); err != nil {
